@@ -85,6 +85,40 @@ def TABLES():
         out.append('-- events.py %s: %r %% %r' % (qual, t, args))
         out.append('def %sTemplate : String := %s' % (nm, lean_str(t)))
         out.append('def %sArgs : List String := [%s]' % (nm, ', '.join(lean_str(a) for a in args)))
+    # SupervisorStateChangeEvent.payload: a constant
+    ss = find_func(et, 'SupervisorStateChangeEvent.payload')
+    r = [n for n in ast.walk(ss) if isinstance(n, ast.Return)]
+    if len(r) != 1 or not (isinstance(r[0].value, ast.Constant) and isinstance(r[0].value.value, str)):
+        raise Untranslatable('SupervisorStateChangeEvent.payload: constant expected')
+    out.append('-- events.py SupervisorStateChangeEvent.payload: return %r' % r[0].value.value)
+    out.append('def supervisorStatePayload : String := %s' % lean_str(r[0].value.value))
+    # RemoteCommunicationEvent.__init__ and rpcinterface.sendRemoteCommEvent: which argument ends up in which field
+    ci = find_func(et, 'RemoteCommunicationEvent.__init__')
+    params = [a.arg for a in ci.args.args][1:]
+    binds = []
+    for n in ci.body:
+        if not (isinstance(n, ast.Assign) and isinstance(n.targets[0], ast.Attribute) and ast.unparse(n.targets[0].value) == 'self'
+                and isinstance(n.value, ast.Name)):
+            raise Untranslatable('RemoteCommunicationEvent.__init__: self.x = param expected')
+        binds.append((n.targets[0].attr, n.value.id))
+    out.append('-- events.py RemoteCommunicationEvent.__init__(self, %s): %s' % (', '.join(params), '; '.join('self.%s = %s' % b for b in binds)))
+    out.append('def remoteCommCtorParams : List String := [%s]' % ', '.join(lean_str(x) for x in params))
+    out.append('def remoteCommCtorBinds : List (String × String) := [%s]' % ', '.join('(%s, %s)' % (lean_str(a), lean_str(b)) for a, b in binds))
+    rsrc = open(os.path.join(extract.REPO, 'supervisor/rpcinterface.py')).read()
+    sf = find_func(ast.parse(rsrc), 'SupervisorNamespaceRPCInterface.sendRemoteCommEvent')
+    notes = [n for n in ast.walk(sf) if isinstance(n, ast.Call) and ast.unparse(n.func) == 'notify']
+    calls = [n.args[0] for n in notes if n.args and isinstance(n.args[0], ast.Call)]
+    if len(notes) != len(calls) or any(ast.unparse(c.func) != 'RemoteCommunicationEvent' or c.keywords
+                                       or not all(isinstance(a, ast.Name) for a in c.args) for c in calls):
+        raise Untranslatable('sendRemoteCommEvent: notify(RemoteCommunicationEvent(name, ...)) expected')
+    if [a.arg for a in sf.args.args][1:] != ['type', 'data']:
+        raise Untranslatable('sendRemoteCommEvent signature')
+    in_loop = any(isinstance(n, (ast.For, ast.While)) for n in ast.walk(sf))
+    if in_loop:
+        raise Untranslatable('sendRemoteCommEvent: loop')
+    out.append('-- rpcinterface.py sendRemoteCommEvent(self, type, data): the notify(RemoteCommunicationEvent(...)) calls, in order')
+    out.append('def sendRemoteCommCalls : List (List String) := [%s]' % ', '.join(
+        '[%s]' % ', '.join(lean_str(a.id) for a in c.args) for c in calls))
     # ProcessStateEvent.payload: the fixed leading fields and the extra values of each subclass
     ps = find_func(et, 'ProcessStateEvent.payload')
     L = [n for n in ast.walk(ps) if isinstance(n, ast.Assign) and ast.unparse(n.targets[0]) == 'L'][0].value
